@@ -424,6 +424,11 @@ def check_numeric(cx, rep, info):
         dc5 = cu.add(cu.multiply(Ud, cu.add(ONE, cu.multiply(Decimal(2), y2))), Ud)     # e^x ≤ 1
         e1 = cu.divide(cu.add(cu.multiply(gD, num), dc5), s_lo)
         return cu.add(e1, cu.multiply(cu.add(y2, Decimal(5)), Ud))
+    if not (lo < 0 < hi):
+        # the series must cover a neighbourhood of 0: outside it the closed form subtracts nearly equal numbers
+        rep.ob('cancel', inst, False, 'switch points [%s, %s] do not bracket 0' % (float(lo), float(hi)), fn=closed_fn, file=file, line=line,
+               msg='the closed form is used arbitrarily close to x = 0 (switch points %s, %s do not bracket 0): it cancels catastrophically there' % (float(lo), float(hi)))
+        return
     worst = Decimal(0)
     worst_at = None
     boxes = 0
@@ -472,7 +477,14 @@ def check_numeric(cx, rep, info):
 def check(cx):
     rep = Report('C10')
     info = check_symbolic(cx, rep)
-    check_numeric(cx, rep, info)
+    import decimal as _decimal
+    try:
+        check_numeric(cx, rep, info)
+    except (_decimal.DecimalException, ZeroDivisionError, OverflowError, ValueError) as e:
+        # the directed-rounding bound left the representable range: there is no finite bound to report
+        rep.ob('total', 'numeric-bound', False, 'bound not computable', fn=info.get('inst') if isinstance(info, dict) else None,
+               msg='the error bound of IntOfLogPoly4::evaluate could not be computed for the constants found in the code (%s: %s): '
+                   'no finite bound over the whole domain' % (type(e).__name__, e))
     rep.floor('series', 8)
     for r in ('closed', 'switch', 'form', 'at-one', 'trunc', 'series-round', 'cancel', 'total', 'range'):
         rep.floor(r, 1)
